@@ -95,6 +95,9 @@ type ConnectStep struct {
 type Step struct {
 	Run     *int         `json:"run,omitempty"`
 	Connect *ConnectStep `json:"connect,omitempty"`
+	// Via "flow": run a flow root through its convenience method flow.Run(ctx, store) instead of flyt.Run;
+	// the action is then not observable (reported as "*")
+	Via string `json:"via,omitempty"`
 }
 
 type FlowScenario struct {
@@ -875,7 +878,9 @@ const runWatchdog = 10 * time.Second
 // as hangs without being started (a change that makes flyt hang must cost seconds, not hours)
 var flowHangs int32
 
-func (e *runtimeEnv) runOnce(root int) RunObs {
+func (e *runtimeEnv) runOnce(root int) RunObs { return e.runOnceVia(root, "") }
+
+func (e *runtimeEnv) runOnceVia(root int, via string) RunObs {
 	if atomic.LoadInt32(&flowHangs) >= 3 {
 		return RunObs{Trace: []string{}, Out: "H", Store: []int{}}
 	}
@@ -901,6 +906,15 @@ func (e *runtimeEnv) runOnce(root int) RunObs {
 	go func() {
 		if e.onRunner != nil {
 			e.onRunner()
+		}
+		if f, ok := e.nodes[root].(*flyt.Flow); ok && via == "flow" {
+			err := f.Run(e.context(), e.runStore)
+			a := flyt.Action("")
+			if err == nil {
+				a = "*"
+			}
+			ch <- res{a, err}
+			return
 		}
 		a, err := flyt.Run(e.context(), e.nodes[root], e.runStore)
 		ch <- res{a, err}
@@ -942,7 +956,7 @@ func execFlowScenario(sc *FlowScenario) FlowObs {
 	for _, st := range sc.Steps {
 		switch {
 		case st.Run != nil:
-			obs.Runs = append(obs.Runs, e.runOnce(*st.Run))
+			obs.Runs = append(obs.Runs, e.runOnceVia(*st.Run, st.Via))
 		case st.Connect != nil:
 			c := st.Connect
 			e.connect(e.nodes[c.Flow].(*flyt.Flow), c.Src, c.Action, c.Dst)
